@@ -244,6 +244,7 @@ static void body(Tape &t, Ctx &ctx) {
     Prog p(t, ctx.trace, Profile::Valid);
     ctx.trace << "C03: ";
     p.start(pa, pb);
+    if (t.chance(45)) { furnishFile(p.f); ctx.trace << "(furnished) "; }
     PrevIndex prev;
     indexSnapshot(snapshot(p.f), prev);
     size_t nops = 6 + t.below(70);
